@@ -799,7 +799,59 @@ def as_relation(fact):
         return None
     if not truth:
         op = CMP_NEG[op]
-    return (op, a, b)
+    # canonical orientation: a constant goes to the right (`2 > len` is `len < 2`)
+    if a.strip().kind == 'const' and b.strip().kind != 'const':
+        op, a, b = CMP_SWAP[op], b, a
+    return Rel(op, a, b)
+
+
+class _RelOp(str):
+    """The operator of a Rel.  Comparing it with the mirrored operator name re-orients the relation, so a
+    rule written as `r[0] == 'Gt' and P(r[1]) and Q(r[2])` matches `a > b` and `b < a` alike."""
+    __slots__ = ('rel',)
+
+    def __eq__(self, other):
+        if str.__eq__(self, other):
+            return True
+        if isinstance(other, str) and self.rel is not None and CMP_SWAP.get(str(self)) == other and other != str(self):
+            self.rel._flip()
+            return True
+        return False
+
+    def __ne__(self, other):
+        return not self.__eq__(other)
+
+    __hash__ = str.__hash__
+
+
+class Rel:
+    """A comparison known to hold: (op, lhs, rhs).  Indexable like the tuple it replaces; unpacking
+    (`op, a, b = rel`) yields a plain operator string and the operands in their current orientation."""
+
+    def __init__(self, op, a, b):
+        self.op, self.a, self.b = op, a, b
+
+    def _flip(self):
+        self.op, self.a, self.b = CMP_SWAP[self.op], self.b, self.a
+
+    def __getitem__(self, i):
+        if i == 0:
+            o = _RelOp(self.op)
+            o.rel = self
+            return o
+        return (self.a, self.b)[i - 1]
+
+    def __iter__(self):
+        return iter((str(self.op), self.a, self.b))
+
+    def __len__(self):
+        return 3
+
+    def __bool__(self):
+        return True
+
+    def __repr__(self):
+        return 'Rel(%s, %s, %s)' % (self.op, show(self.a), show(self.b))
 
 
 def callee_name(t):
@@ -850,8 +902,11 @@ class CallSite:
 
 
 class Program:
-    def __init__(self, facts_dir):
+    def __init__(self, facts_dir, normalise=True, profile=None):
         self.dir = facts_dir
+        self.profile = profile or os.path.basename(os.path.normpath(facts_dir))
+        self.renamed = {}
+        self.inlined = []
         self.fns = {}
         self.by_name = collections.defaultdict(list)
         self.consts = {}
@@ -860,9 +915,22 @@ class Program:
         self.impls = []
         self.crates = []
         self.trait_impls = collections.defaultdict(list)  # trait item key -> [Fn]
+        texts = []
         for f in sorted(glob.glob(os.path.join(facts_dir, '*.json'))):
             with open(f) as fh:
-                d = json.load(fh)
+                texts.append(fh.read())
+        crates = [json.loads(t) for t in texts]
+        table = None
+        if normalise:
+            from . import normalize
+            table = normalize.load_table()
+        if table is not None:
+            raw = [Fn(fd, d['crate']) for d in crates for fd in d['fns']]
+            self.renamed = normalize.detect_renames(raw, table, self.profile)
+            if self.renamed:
+                crates = [json.loads(normalize.apply_renames(t, self.renamed)) for t in texts]
+            self.inlined = normalize.inline_new_helpers(crates, table)
+        for d in crates:
             crate = d['crate']
             self.crates.append(crate)
             for fd in d['fns']:
